@@ -1,0 +1,26 @@
+//! Verification hooks. This module only exists when the crate is compiled with
+//! `--cfg getong_stateright_verif`; it is not part of the public API and changes no decision the
+//! library makes unless a harness explicitly installs an override.
+
+use std::hash::Hash;
+use std::sync::atomic::{AtomicUsize, Ordering};
+
+/// The fingerprint the checkers use to identify a state.
+pub fn fingerprint_of<T: Hash>(value: &T) -> u64 {
+    crate::fingerprint(value).get()
+}
+
+static BLOCK_LIMIT: AtomicUsize = AtomicUsize::new(0);
+
+/// Overrides how many states a worker evaluates before it looks at the job market again (a
+/// performance knob, 1500 in production) so that work sharing happens on tiny models.
+pub fn set_block_limit(limit: Option<usize>) {
+    BLOCK_LIMIT.store(limit.unwrap_or(0), Ordering::SeqCst);
+}
+
+pub fn block_limit() -> Option<usize> {
+    match BLOCK_LIMIT.load(Ordering::SeqCst) {
+        0 => None,
+        n => Some(n),
+    }
+}
